@@ -1,5 +1,5 @@
 import DFV.Lemmas.C16Examples
-import DFV.Lemmas.C16Legacy
+import DFV.Lemmas.C16Text
 /-!
 # C16 — VTK output puts each value in the grid cell a VTK reader finds at that position
 
@@ -340,6 +340,39 @@ theorem file_roundtrip_text_exact (f : Fld) (nx ny nz : Nat) (h : WF f nx ny nz)
   have : (normVArr f :: (comps f ++ [fieldVArr f, validVArr f])).isEmpty = false := rfl
   simp only [this]
   exact h1
+
+/-- **Text files, any rounding.**  Whatever the writer's rounding `rnd` does (as long as it does
+not collapse an edge of the region), the text file reads back as: corners `rnd pmin`,
+`rnd pmax`, the same cell counts and labels, in every cell the value-wise rounding of the
+field's vector — so each value keeps the digits the writer keeps — and the **unrounded**
+validity flags. -/
+theorem file_roundtrip_text (f : Fld) (nx ny nz : Nat) (h : WF f nx ny nz) (save : Bool) (rnd : Rat → Rat)
+    (hlt : ∀ a, a < 3 → rnd (f.mesh.region.lo a) < rnd (f.mesh.region.hi a)) (m1 : Mesh)
+    (hsub : loadSubs { region := plainRegion (tab 3 fun a => rnd (f.mesh.region.lo a)) (tab 3 fun a => rnd (f.mesh.region.hi a)),
+                       n := [nx, ny, nz], bc := "", subs := [] }
+              (if save && !f.mesh.subs.isEmpty then some f.mesh.subs else none) = .ok m1) :
+    ∃ v f', toFile f "txt" save rnd = .ok v ∧ fromFile v = .ok f' ∧ f'.mesh = m1 ∧ f'.nvdim = f.nvdim ∧
+      f'.vdims = (if f.nvdim = 1 then none else f.vdims) ∧
+      ∀ idx, inRange [nx, ny, nz] idx = true →
+        f'.data.get idx = (tab f.nvdim fun c => rnd ((f.data.get idx).getD c 0)) ∧
+        f'.valid.get idx = f.valid.get idx := by
+  have hg := toVtk_ok f nx ny nz h
+  obtain ⟨f', h1, h2, h3, h4, h5⟩ := fromCells_rounded f nx ny nz h _ hg rnd hlt _ m1 hsub
+  have hr : repOf "txt" = .ok .txt := by decide
+  refine ⟨_, f', by unfold toFile; rw [hr, hg], ?_, h2, h3, h4, h5⟩
+  simp only [fromFile, readVtk, if_true]
+  have : (mapGrid rnd { dims := [nx + 1, ny + 1, nz + 1], coords := tab 3 fun a => f.mesh.vertices.getD a [],
+                        cell := normVArr f :: (comps f ++ [fieldVArr f, validVArr f]) }).cell.isEmpty = false := by
+    rw [mapGrid_cell]; rfl
+  simp only [this]
+  exact h1
+
+/-- the rounding hypothesis is met by the example field with a rounding to multiples of 1/8 -/
+example : ∀ a, a < 3 → (fun q : Rat => ((q * 8 + 1/2).floor : Rat) / 8) (exField.mesh.region.lo a) <
+    (fun q : Rat => ((q * 8 + 1/2).floor : Rat) / 8) (exField.mesh.region.hi a) := by
+  intro a ha
+  have : a = 0 ∨ a = 1 ∨ a = 2 := by omega
+  rcases this with rfl | rfl | rfl <;> decide +kernel
 
 /-- In a text file the validity flags are never rounded: the `valid` array of the written grid
 is the one `to_vtk` built, whatever the rounding does to floating numbers. -/
